@@ -6,7 +6,8 @@
 //	   therefore up to T) over 24 leaf operations and 7 node operations,
 //	B  every chain of up to 3 (thorough 4) nested length-prefix kinds around every
 //	   content size within 14 below .. 1 above each boundary 128 / 256 / 65536
-//	   (thorough: 2^24 for chains up to depth 2), x 3 ways of producing the content
+//	   (thorough: within 8 below .. 1 above 2^24 for chains up to depth 2, plain
+//	   content, 2 sibling layouts), x 3 ways of producing the content
 //	   (Bytes(k) | Bytes(k+1) Unwrite(1) | U8 Bytes(k-1); for the 64K sizes the last
 //	   two only on single-level chains) x 4 sibling layouts,
 //	C  AddASN1 with every identifier octet 0..255 x content sizes {0,127,128}.
@@ -674,7 +675,11 @@ func (k *checker) familyB(maxDepth int, bounds []int, tag string) {
 		}
 	}
 	for _, b := range bounds {
-		for s := b - 14; s <= b+1; s++ {
+		lo := b - 14
+		if b > 1<<20 {
+			lo = b - 8
+		}
+		for s := lo; s <= b+1; s++ {
 			sizeSet[s] = true
 		}
 	}
@@ -698,10 +703,13 @@ func (k *checker) familyB(maxDepth int, bounds []int, tag string) {
 		st := newStats()
 		defer k.merge(st)
 		for variant := 0; variant < 3; variant++ {
-			if variant == 2 && j.size == 0 || variant > 0 && j.size > 4096 && j.size < 1<<20 && len(j.chain) > 1 {
-				continue // the alternative content layouts of 64K programs only for single-level chains
+			if variant == 2 && j.size == 0 || variant > 0 && j.size > 4096 && (len(j.chain) > 1 || j.size > 1<<20) {
+				continue // the alternative content layouts of 64K programs only for single-level chains, of 16M programs not at all
 			}
 			for sib := 0; sib < 4; sib++ {
+				if j.size > 1<<20 && sib != 0 && sib != 3 {
+					continue
+				}
 				var inner []*cbref.Op
 				switch variant {
 				case 0:
